@@ -490,6 +490,29 @@ pub fn run(ctx: &Ctx) -> Report {
         run_set(&mut rep, c, "corpus", true, 7);
     }
 
+    // E3: coverage-guided differential campaign (thorough tier): from the committed corpus and from an empty one
+    if ctx.tier == Tier::Thorough {
+        let secs: u64 = std::env::var("DMV_FUZZ_SECS").ok().and_then(|s| s.parse().ok()).unwrap_or(240);
+        for from_empty in [false, true] {
+            match super::fuzzrun::run_campaign(ctx, "fmt_literal", secs / 2, 8, from_empty) {
+                Ok(c) => {
+                    rep.evidence.add("fuzz_fmt_literal_executions", c.runs);
+                    rep.evidence.eval(c.runs);
+                    let lits: Vec<String> = c.crashes.iter().map(|b| String::from_utf8_lossy(b).to_string()).collect();
+                    match ref_parse_all(&lits) {
+                        Ok(refs) => {
+                            let acc = process(&lits, &refs, "fuzz", true, 1);
+                            rep.evidence.merge(acc.ev);
+                            rep.violations.extend(acc.viol);
+                        }
+                        Err(e) => rep.infra_errors.push(format!("fmtref: {e}")),
+                    }
+                }
+                Err(e) => rep.infra_errors.push(format!("fuzz campaign fmt_literal: {e}")),
+            }
+        }
+    }
+
     rep.evidence.exhaustive = Some(false);
     rep.evidence.explanation = format!(
         "sub-spaces enumerated completely: the {glen} single-placeholder grammar derivations (stage A for all; stage B for {}), all strings of length <= {maxlen} over the 27-symbol alphabet; sampled: one-edit neighbours, sequences",
